@@ -748,9 +748,28 @@ impl Prop for C05 {
 								}
 							};
 							if let Some(c) = class {
+								// listed finding (C04 mined_sent_entry_unconfirmed:change_reserved_by_later_tx,
+								// the spend-unconfirmed family): a later transaction of this wallet
+								// reserved this transaction's still unconfirmed change at 0
+								// confirmations and re-tagged it, so the refresh can never confirm
+								// the entry although it is mined - and the cancel then goes through
+								let change_respent = c == "confirmed_on_chain_before_the_call"
+									&& self.spent_unconfirmed.contains(w)
+									&& target
+										.as_ref()
+										.and_then(|(sid, _, _)| run.model.deal_of(sid))
+										.map(|d| {
+											let mine = &run.model.deals[d];
+											run.model.deals.iter().enumerate().any(|(o, other)| {
+												o != d
+													&& other.payer == Some(*w)
+													&& other.inputs.iter().chain(other.reserved.iter()).any(|(k, _)| mine.change.iter().any(|(c, _)| c == k))
+											})
+										})
+										.unwrap_or(false);
 								v.push(run.viol(
 									"refusals",
-									&format!("cancel_accepted:{}", c),
+									&format!("cancel_accepted:{}{}", c, if change_respent { ":change_reserved_by_later_tx" } else { "" }),
 									format!("wallet {}: cancel of a {} transaction succeeded", w, c),
 								));
 							}
